@@ -38,6 +38,7 @@ deriving DecidableEq, Repr, Inhabited
 
 inductive PanicKind
   | overflow | unwrap | unreachable | index | fuel
+  | explicit  -- a literal `panic!(..)` in the code
 deriving DecidableEq, Repr, Inhabited
 
 /-- Outcome of a call into the code: value, `Err(code)`, or a panic / non-termination. -/
@@ -286,7 +287,7 @@ end Old
 `if end { confirm; level -= 1 } else if is_container { level += 1 }`.
 `level` is an **`i32`** in the Rust (read.rs: `let mut level = 1; while level > 0 { … }`), so the
 increment is a checked `i32` addition: the overflow-checks build panics when `level` would pass
-`i32::MAX = 2^31 − 1` (`levelStep_overflow_reachable` in Props/C16), the release build wraps to a
+`i32::MAX = 2^31 − 1` (`Tlv.levelStep_overflow`; whole run: `C16.level_overflow_reachable` in Props/C16), the release build wraps to a
 negative value and leaves the loop.  The no-panic theorems therefore carry the hypothesis
 `len < 2^31`: every container start costs at least one byte, so the counter stays below `2^31`. -/
 def levelStep (c : Control) (level : Nat) : Res Nat :=
@@ -725,7 +726,8 @@ def encodes : Values → Bytes
 end
 
 /-- `TLVWrite::tlv(tag, value)` **after the fix**: a string whose length does not fit the length field
-of its element type is refused with `InvalidData` before anything is written; everything else is
+of its element type is refused with `InvalidData` before any byte of that element is written (the model has no buffer
+state: bytes written earlier — enclosing `start_*` headers, siblings — stay in the buffer); everything else is
 written as `header ++ payload`.  (Before the fix — and still in the infallible iterator writer
 `TLV::bytes_iter` / `TLVValueIter` — the length is cast with `as u8/u16/u32`: that is `encode`, whose
 `leBytes w.bytes b.length` truncates the same way.) -/
@@ -747,6 +749,29 @@ def writes : Values → Res Bytes
     let b ← writes vs
     pure (a ++ b)
 end
+
+/-! ### writer entry points that take a caller-side length (not expressible as a `Value`) -/
+
+/-- `TLVWrite::stri(tag, len, data)` (`isUtf8 = false`) / `utf8i` (`true`): the element type is chosen from
+the **caller-supplied** `len`, `len` is written as the length field, then whatever bytes the iterator yields
+are appended.  The code never compares the two (its doc: "the length … must match the number of bytes returned
+by the provided iterator, or else the generated TLV stream will be invalid") and `utf8i` never validates UTF-8.
+`str(tag, data)` / `utf8(tag, s)` are `stri(tag, data.len(), data)` / `utf8i(tag, s.len(), s.bytes())`. -/
+def writeStri (isUtf8 : Bool) (t : Tag) (len : Nat) (data : Bytes) : Bytes :=
+  header t (if isUtf8 then .utf8 (lenWidth len) else .str (lenWidth len)) ++
+    (leBytes (lenWidth len).bytes len ++ data)
+
+/-- `WriteBuf::str_cb` (`isUtf8 = false`) / `utf8_cb` (`true`): a `Str16l` / `Utf16l` header is reserved, the
+callback fills the free space and returns how many bytes it wrote (`data` = those bytes); `finalize_len_header`
+rewrites the header to the 1-byte form for `≤ 255`, patches the 2-byte length for `≤ 65535` and otherwise runs
+into a literal **`panic!("Callback wrote more data than the reserved header can encode")`**.  UTF-8 is never
+validated.  (`NoSpace` and a callback error are not modelled.) -/
+def writeStrCb (isUtf8 : Bool) (t : Tag) (data : Bytes) : Res Bytes :=
+  if data.length ≤ 255 then
+    .ok (header t (if isUtf8 then .utf8 .w1 else .str .w1) ++ (leBytes 1 data.length ++ data))
+  else if data.length ≤ 65535 then
+    .ok (header t (if isUtf8 then .utf8 .w2 else .str .w2) ++ (leBytes 2 data.length ++ data))
+  else .panic .explicit
 
 mutual
 def Value.typed : Value → Prop
